@@ -329,7 +329,11 @@ func rulePartPass(r *Run) {
 	}
 	// (a) the loop over zipReader.File stores every entry under its own name or fails
 	found := false
-	for _, l := range naturalLoops(open) {
+	var openLoops []*natLoop
+	for _, g := range helperGroup(p, open) {
+		openLoops = append(openLoops, naturalLoops(g)...)
+	}
+	for _, l := range openLoops {
 		if !isBoundedRange(l) {
 			continue
 		}
@@ -342,7 +346,15 @@ func rulePartPass(r *Run) {
 					isZip = true
 				}
 				if mu, ok := in.(*ssa.MapUpdate); ok {
+					// the part map itself, or a local map[string][]byte that becomes it (a reading helper
+					// may fill a fresh map and return it)
+					isParts := false
 					if ch, _ := addrChain(mu.Map); len(ch) > 0 && fieldIs(p, ch[len(ch)-1], pkgDoc, "Document", "parts") {
+						isParts = true
+					} else if mt, ok := mu.Map.Type().Underlying().(*types.Map); ok && mt.Elem().String() == "[]byte" {
+						isParts = true
+					}
+					if isParts {
 						// key must be the entry's own name
 						kch, _ := valueChain(mu.Key)
 						if len(kch) > 0 && kch[len(kch)-1] != nil && kch[len(kch)-1].Name() == "Name" {
